@@ -9,7 +9,8 @@
 (*               returns its scripted result (or panics)                            *)
 (*    waiter w   (Signal/Launch/Background/StartGroup) waiter w is invoked          *)
 (*    cancel w   the context of waiter w is cancelled                               *)
-(*    call       (Retry, Join/PreHook/PostHook) one synchronous call                *)
+(*    call       (Retry, Join/PreHook/PostHook) one synchronous call; Producer.Join: *)
+(*               one of several successive calls                                    *)
 (* `hist` records each step with the observations the contract allows at the next   *)
 (* quiescent point; harness/cmd/vh-wrappers executes the steps against the real     *)
 (* wrappers and compares.  Expectations are ranges / sets, and exactly as strong    *)
@@ -35,7 +36,7 @@
 EXTENDS Integers, Sequences, FiniteSets, TLC, Json
 
 CONSTANTS Callers,     \* caller / waiter identities (strings)
-          Families,    \* subset of {"once","limit","oplimit","lock","launch","retry","hooks"}
+          Families,    \* subset of {"once","limit","oplimit","lock","launch","retry","hooks","pjoin"}
           MaxN,        \* limits / retry counts explored: 1..MaxN (Retry: 0..MaxN)
           MaxM,        \* group sizes for StartGroup
           ScriptLen,   \* length of result scripts
@@ -52,7 +53,8 @@ OpLimitKinds == {"Operation.Limit"}
 LockKinds   == {"Worker.Lock", "Operation.Lock", "Producer.Lock", "Processor.Lock", "Handler.Lock", "Future.Lock",
                 "Worker.WithLock", "Operation.WithLock", "Producer.WithLock", "Processor.WithLock",
                 "Handler.WithLock", "Future.WithLock", "Mixed.WithLock"}
-GroupKinds  == {"Operation.StartGroup", "Worker.StartGroup"}
+GroupKinds  == {"Operation.StartGroup", "Worker.StartGroup", "Worker.Group"}
+LazyKinds   == {"Worker.Group"}      \* the background starts when the (single) waiter is invoked, not at construction
 LaunchKinds == {"Operation.Signal", "Operation.Launch", "Operation.Add", "Worker.Signal", "Worker.Launch",
                 "Worker.Background", "Producer.Launch", "Producer.Background", "Processor.Background",
                 "Processor.Add"} \cup GroupKinds
@@ -78,6 +80,11 @@ Sc(f, k, n, m, pre, s) == [fam |-> f, kind |-> k, n |-> n, m |-> m, pre |-> pre,
 Scripts(R, L) == [1..L -> R]
 Fam(f, S) == IF f \in Families THEN S ELSE {}
 
+\* Producer.Join: the scripts of the first and of the second producer, joined by "|"; an error ends the scenario
+\* (what happens after a non-EOF error is not part of the documented order)
+PJScripts == {t \in UNION {[1..k -> {"ok", "eof", "err"}] : k \in 0..2} :
+                \A j \in 1..Len(t) : (t[j] \in {"eof", "err"}) => j = Len(t)}
+
 Scenarios ==
        Fam("once",    {Sc("once", k, 1, 0, FALSE, <<r>>) : k \in OnceKinds, r \in Results})
   \cup Fam("limit",   {Sc("limit", x[1], x[2], 0, FALSE, x[3]) : x \in LimitKinds \X (1..MaxN) \X Scripts(Results, ScriptLen)})
@@ -93,6 +100,7 @@ Scenarios ==
                                   pre \in (IF HasCtx(k) THEN BOOLEAN ELSE {FALSE}),
                                   s \in {t \in [1..Len(Parts(k)) -> {"ok", "err", "panic", "cancel"}] :
                                             \A j \in 1..Len(Parts(k)) : t[j] \in PartResults(k, Parts(k)[j])}} : k \in HookKinds})
+  \cup Fam("pjoin",   {Sc("pjoin", "Producer.Join", 0, 0, FALSE, x[1] \o <<"|">> \o x[2]) : x \in PJScripts \X PJScripts})
 
 VARIABLES sc, started, cancelled, entered, held, counted, lastc, retfrom, panics,
           bgdone, okdone, ended, sendblocked, blk, called, hist
@@ -109,8 +117,8 @@ Cap == CASE sc.fam = "once" -> 1 [] sc.fam = "limit" -> sc.n [] OTHER -> 99
 
 Init == /\ sc \in Scenarios
         /\ started = {} /\ cancelled = {} /\ counted = 0 /\ lastc = 0 /\ retfrom = <<>> /\ panics = 0
-        /\ entered = (IF sc.fam = "launch" THEN sc.m ELSE 0)      \* Signal/Launch/StartGroup start the background
-        /\ held = (IF sc.fam = "launch" THEN sc.m ELSE 0)         \* executions when the scenario is constructed
+        /\ entered = (IF sc.fam = "launch" /\ sc.kind \notin LazyKinds THEN sc.m ELSE 0)   \* Signal/Launch/StartGroup start the
+        /\ held = (IF sc.fam = "launch" /\ sc.kind \notin LazyKinds THEN sc.m ELSE 0)      \* background executions at construction
         /\ bgdone = 0 /\ okdone = 0 /\ ended = FALSE /\ sendblocked = FALSE /\ blk = {} /\ called = FALSE
         /\ hist = <<>>
 
@@ -188,8 +196,11 @@ Pick(S) == CHOOSE x \in S : TRUE
 
 Waiter(w) ==
   /\ sc.fam = "launch" /\ w \notin started
+  /\ sc.kind \in LazyKinds => started = {} /\ w \notin cancelled      \* Worker.Group: one call, it starts its own m copies
   /\ started' = started \cup {w}
-  /\ IF PL
+  /\ IF sc.kind \in LazyKinds
+       THEN entered' = sc.m /\ held' = sc.m /\ blk' = {w} /\ UNCHANGED sendblocked
+     ELSE IF PL
        THEN IF ended \/ w \in cancelled THEN UNCHANGED <<blk, sendblocked, entered, held>>
             ELSE IF sendblocked THEN /\ sendblocked' = FALSE /\ entered' = entered + 1 /\ held' = 1   \* takes the pending value;
                                      /\ UNCHANGED blk                                                 \* the loop calls the producer again
@@ -262,15 +273,42 @@ CallHooks == /\ sc.fam = "hooks" /\ ~called /\ called' = TRUE
              /\ UNCHANGED <<sc, started, cancelled, entered, held, counted, lastc, retfrom, panics, LaunchVars>>
              /\ Rec("call", "", [NoExp EXCEPT !.allowed = HookExp])
 
+(* ------------------------------------------------------------ Producer.Join *)
+\* "on successive calls, runs the first producer until it returns io.EOF, and then returns the results of the
+\* second; when the second returns io.EOF all successive calls return io.EOF" (producer.go:104-110).  Each call
+\* is one step; the expectation is which producers that call executed, in order.  State (re-using the counters
+\* of the other families): counted / lastc = results consumed from the first / second producer, entered = stage
+\* (0 first, 1 second, 2 exhausted, 3 nothing more to judge).
+SplitAt == CHOOSE j \in 1..Len(sc.script) : sc.script[j] = "|"
+PJA == SubSeq(sc.script, 1, SplitAt - 1)
+PJB == SubSeq(sc.script, SplitAt + 1, Len(sc.script))
+At(s, i) == IF i <= Len(s) THEN s[i] ELSE "eof"               \* beyond its script a producer reports io.EOF
+CallPJoin ==
+  /\ sc.fam = "pjoin" /\ entered < 3
+  /\ LET ra == At(PJA, counted + 1)
+         rb == At(PJB, lastc + 1)
+         after(r) == CASE r = "ok" -> 1 [] r = "eof" -> 2 [] OTHER -> 3
+     IN CASE entered = 0 /\ ra = "ok"  -> /\ counted' = counted + 1 /\ UNCHANGED <<lastc, entered>>
+                                          /\ Rec("call", "", [NoExp EXCEPT !.allowed = {<<"a">>}])
+          [] entered = 0 /\ ra = "err" -> /\ counted' = counted + 1 /\ entered' = 3 /\ UNCHANGED lastc
+                                          /\ Rec("call", "", [NoExp EXCEPT !.allowed = {<<"a">>}])
+          [] entered = 0 /\ ra = "eof" -> /\ counted' = counted + 1 /\ lastc' = lastc + 1 /\ entered' = after(rb)
+                                          /\ Rec("call", "", [NoExp EXCEPT !.allowed = {<<"a", "b">>}])
+          [] entered = 1               -> /\ lastc' = lastc + 1 /\ entered' = after(rb) /\ UNCHANGED counted
+                                          /\ Rec("call", "", [NoExp EXCEPT !.allowed = {<<"b">>}])
+          [] entered = 2               -> /\ entered' = 3 /\ UNCHANGED <<counted, lastc>>        \* exhausted: nothing runs
+                                          /\ Rec("call", "", [NoExp EXCEPT !.allowed = {<<>>}])
+  /\ UNCHANGED <<sc, started, cancelled, held, retfrom, panics, LaunchVars, called>>
+
 (* ------------------------------------------------------------ *)
 Step == \/ \E c \in Callers : StartSerial(c) \/ StartOp(c) \/ Waiter(c) \/ Cancel(c)
-        \/ ReleaseSerial \/ ReleaseOp \/ ReleaseBg \/ CallRetry \/ CallHooks
+        \/ ReleaseSerial \/ ReleaseOp \/ ReleaseBg \/ CallRetry \/ CallHooks \/ CallPJoin
 
 Next == Len(hist) < Depth /\ Step
 Spec == Init /\ [][Next]_vars
 
 \* sanity of the abstract spec itself
-Inv == /\ held <= entered /\ Len(retfrom) <= Cardinality(started)
+Inv == /\ (sc.fam # "pjoin" => held <= entered) /\ Len(retfrom) <= Cardinality(started)
        /\ (sc.fam \in Serial => held \in {0, 1})
        /\ (sc.fam \in {"once", "limit"} /\ panics = 0 => entered <= Cap)
        /\ (sc.fam \in {"once", "limit"} /\ panics = 0 /\ held = 0 => entered = Min(Cap, Cardinality(started)))
